@@ -1,4 +1,4 @@
-import NomtModel.Store.GenFnCheck3
+import NomtModel.Store.GenFnCheck5
 /-!
 # C05 (topic: translated function — the meta byte of a full bucket, `bitbox/meta_map.rs`)
 -/
@@ -48,6 +48,16 @@ theorem T5_fn_probe_next_total (bv : List Nat) (hv : ∀ b ∈ bv, b = 0 ∨ b =
 /-- T5.fn-5 `HTOffsets::data_page_index` / `meta_bytes_index`: bucket pages follow the meta-byte pages -/
 theorem T5_fn_ht_offsets (off ix : Nat) (h : off + ix < 2 ^ 64) :
     GenFn.ht_data_page_index off ix = some (off + ix) ∧ GenFn.ht_meta_bytes_index ix = some ix := GenFnCheck.ht_offsets_eq off ix h
+
+/-- T5.fn-6 `ProbeSequence::new` of the CURRENT source (struct result = the tuple `(hash, bucket, step)`; the page-id hash is a parameter)
+is the mirror `PS.new`: the sequence starts at `hash % len` with step 0 — and on a table WITHOUT buckets it panics (`hash % 0`,
+finding F-Q36-1: `Options::hashtable_buckets(0)` is accepted) -/
+theorem T5_fn_probe_new (n hash : Nat) :
+    GenFn.probe_new n hash = if n = 0 then none
+      else some ((Store.Probe.PS.new hash n).hash, (Store.Probe.PS.new hash n).bucket, (Store.Probe.PS.new hash n).step) :=
+  GenFnCheck.probe_new_eq n hash
+
+example : GenFn.probe_new 0 77 = none ∧ GenFn.probe_new 10 77 = some (77, 7, 0) := by decide
 
 example : GenFn.probe_next 10 (2 ^ 57 * 5) 1 0 4 [0x85 - 1, 0x84, 127, 0] = some (some (.Tombstone 2, 2, 2)) ∧
     GenFn.probe_next 10 (2 ^ 57 * 5) 1 0 4 [0x85 - 1, 0x85, 127, 0] = some (some (.PossibleHit 1, 1, 1)) ∧
